@@ -306,7 +306,9 @@ class SqliteStorage(AbstractStorage):
             + "WHERE id = ? AND bucketrow = (SELECT b.rowid FROM buckets b WHERE b.id = ?)"
         )
         cursor = self.conn.execute(query, [event_id, bucket_id])
-        return cursor.rowcount == 1
+        deleted = cursor.rowcount == 1
+        self.conditional_commit(1)
+        return deleted
 
     def replace(self, bucket_id, event_id, event) -> bool:
         starttime, endtime = _event_to_us(event)
